@@ -210,7 +210,7 @@ func rulesC13(c *Ctx) {
 			if !ok || call.Call.IsInvoke() || call.Call.StaticCallee() != nil {
 				return false
 			}
-			n, _ := fieldLoadName(call.Call.Value)
+			n, _ := fieldLoadName(resolve(call.Call.Value))
 			return n != "" && n == unlockField
 		}
 		// a once-guard: `if !atomic.CompareAndSwapT(&locker.flag, 0, 1) { return err }` - the failing edge is
@@ -265,6 +265,12 @@ func rulesC13(c *Ctx) {
 				if !k.pol && onceCAS(k.v) {
 					return false
 				}
+				// the stored unlock is nil (an earlier Commit took it out): there is nothing to call
+				if bo, ok := k.v.(*ssa.BinOp); ok && (bo.Op == token.EQL || bo.Op == token.NEQ) && isNilConst(bo.Y) && (bo.Op == token.EQL) == k.pol {
+					if n, _ := fieldLoadName(resolve(bo.X)); n != "" && n == unlockField {
+						return false
+					}
+				}
 			}
 			return true
 		}
@@ -287,6 +293,23 @@ func rulesC13(c *Ctx) {
 			}
 		}
 		c.Check(ok, "R3", "datascope.(*DataLocker).Commit", commit.Pos(), "the stored unlock is called exactly once on every path", "Commit does not call the stored unlock exactly once on every path — the scope stays locked (or is unlocked twice: panic)")
+	}
+
+	// ---- R6 reads remember nothing: Value/Keys do not write the scope object -----------------------
+	// (a child that memoises what it read through its parent keeps answering the old value after the
+	// parent replaced or cleared the key)
+	{
+		n6 := 0
+		for _, f := range pkgFns {
+			if f.Signature.Recv() == nil || (f.Name() != "Value" && f.Name() != "Keys") || f.Parent() != nil {
+				continue
+			}
+			n6++
+			bad, pos := writesOwnPackageState(f, dataPkg)
+			c.Check(bad == "", "R6", fname(f)+" keeps no memo", orPos(pos, f.Pos()), "the read writes nothing into a scope object",
+				bad+" during a read — a value remembered from the parent is not the parent's current value once the parent changes it")
+		}
+		c.Floor("R6", n6, 4)
 	}
 
 	// ---- R4 overlay direction ---------------------------------------------------------
